@@ -5,7 +5,7 @@
    jobs >= 1 and both settings of --stop-early. *)
 From Coq Require Import List Arith Bool NArith.
 From Conductor Require Import Model.Loader Model.Planner Model.Exec Model.RunCase
-  Proofs.ExecInv Proofs.ExecTheorems Proofs.ExecMain Proofs.PlannerInv Proofs.PlannerExact Proofs.ComposeExec Proofs.ComposeStop.
+  Proofs.ExecInv Proofs.ExecTheorems Proofs.ExecMain Proofs.PlannerInv Proofs.PlannerExact Proofs.ComposeExec Proofs.ComposeStop Proofs.ExecStatus Proofs.ComposeStatus.
 Import ListNotations.
 
 (* the final state of every operation is determined by the dependency graph and the oracle:
@@ -101,6 +101,22 @@ Theorem C03_stop_early_end_to_end :
 Proof. exact cond_run_stop_early. Qed.
 Print Assumptions C03_stop_early_end_to_end.
 
+(* The verdict, end to end.  For every project the loader accepts, every configuration and every
+   oracle: the event list of a complete `cond run` never contains the firing of
+   `assert len(failed_task_ops) > 0`; it ends with "Done!" (exit status 0) EXACTLY when no launch
+   failed, no process exited with a non-zero status and nothing was skipped -- and then every planned
+   operation finished with status 0; otherwise it ends with a failure report that names at least
+   one failed operation (and the run re-raises its error: exit status 1). *)
+Theorem C03_verdict_end_to_end :
+  forall fuel tasks c loaded ps evs,
+  cond_run fuel tasks c = ORun loaded ps (Some evs) -> 1 <= c_jobs c ->
+  ~ In EAssertFail evs /\
+  (In EDone evs <-> forall e, In e evs -> is_failure e = false /\ is_skip e = false) /\
+  (In EDone evs -> forall o, o < length (ops ps) -> In (EFinish o 0%N) evs) /\
+  (~ In EDone evs -> exists f sk, In (EFailed f sk) evs /\ f <> []).
+Proof. exact cond_run_verdict. Qed.
+Print Assumptions C03_verdict_end_to_end.
+
 (* non-vacuity: a well-formed two-operation plan (op 1 depends on op 0) whose first operation
    fails ends with op 0 FAILED, op 1 SKIPPED and a failure report *)
 Definition ex_plan : plan :=
@@ -112,3 +128,21 @@ Example C03_nonvacuous :
   run_plan ex_plan 1 false ex_orc 10 0 =
   Some [EStart 0 None; EFinish 0 3; ESkip 1; EKill []; EFailed [0] [1]].
 Proof. vm_compute. reflexivity. Qed.
+
+(* non-vacuity of the verdict: (a) a dependency exits with 3, the dependent is skipped, the run reports
+   the failure; (b) the same project with status 0 everywhere ends with "Done!"; (c) a root whose
+   results are cached: the plan is empty and the run still ends with "Done!" (the branch in which the
+   assertion would have to hold) *)
+Definition v_tasks : list tdef :=
+  [ {| td_status := 2; td_deps := [1]; td_kind := KCommand; td_par := false; td_sr := true |};
+    {| td_status := 2; td_deps := []; td_kind := KCommand; td_par := false; td_sr := true |} ].
+Definition v_cfg (rc : N) : run_cfg :=
+  {| c_root := 0; c_again := false; c_jobs := 1; c_stop := false; c_launch_fail := []; c_rcs := [0; rc]%N; c_picks := [] |}.
+Definition v_cached : list tdef :=
+  [ {| td_status := 2; td_deps := []; td_kind := KExperiment; td_par := false; td_sr := false |} ].
+Definition evs_of (o : outcome) : list event := match o with ORun _ _ (Some l) => l | _ => [] end.
+Example C03_verdict_nonvacuous :
+  evs_of (cond_run 50 v_tasks (v_cfg 3)) = [EStart 0 None; EFinish 0 3; ESkip 1; EKill []; EFailed [0] [1]] /\
+  evs_of (cond_run 50 v_tasks (v_cfg 0)) = [EStart 0 None; EFinish 0 0; EStart 1 None; EFinish 1 0; EKill []; EDone] /\
+  evs_of (cond_run 50 v_cached (v_cfg 0)) = [ECached 0; EKill []; EDone].
+Proof. vm_compute. repeat split. Qed.
